@@ -1,5 +1,6 @@
 import Beetswap.Proofs.NetDefs
 import Beetswap.Proofs.ClientView
+import Beetswap.Proofs.ClientSending
 import Beetswap.Proofs.ServerDrain
 /-!
 Core facts about the requesting node `a` inside the composition: its server half never does
@@ -135,13 +136,13 @@ theorem absorbB_a (outs : List Out) (s : State) : (absorbB s outs).a = s.a := by
 def drainedA (a : Node.State) : Node.State :=
   let d := Client.drain a.client a.now a.seq (Node.prefOf [])
   let c : Client.State := { d.1 with newBlocks := [] }
-  { a with client := if d.2.2.any isSend then Client.sendingChanged c 1 (.sending 1) else c,
+  { a with client := if d.2.2.any isSend then Client.sendingChanged c 1 1 (.sending 1) else c,
            server := { a.server with outq := [] }, seq := d.2.1 }
 
 theorem step_drainA_def (s : State) :
     step s .drainA =
       absorbA { s with a := if (Node.step s.a (.drain [] [])).2.1.any isSend
-          then (Node.step (Node.step s.a (.drain [] [])).1 (.sending 1 (.sending 1))).1
+          then (Node.step (Node.step s.a (.drain [] [])).1 (.sending 1 1 (.sending 1))).1
           else (Node.step s.a (.drain [] [])).1 } (Node.step s.a (.drain [] [])).2.1 := rfl
 
 theorem step_drainA (s : State) (h : SrvIdle s.a.server) :
